@@ -1098,6 +1098,10 @@ def rule_breakers(base, rnd):
     victim("unlimited union arm (typedef)", S.UnionDef([{"d": 1, "t": I(4)}, {"d": 2, "t": R(TG)}]))
     victim("float sizer (typedef)", st([M("plain", R(TF)), M("ext", I(1), 0, 1)]))
     victim("struct sizer (typedef)", st([M("plain", R(TD)), M("ext", I(1), 0, 1)]))
+    # a sizer that is itself an array
+    victim("dynamic array as sizer", st([M("dyn", I(1)), M("ext", I(2), 0, 1)]))
+    victim("ext-sized array as sizer", st([M("plain", I(1)), M("ext", I(1), 0, 1), M("ext", I(2), 0, 2)]))
+    victim("fixed array as sizer", st([M("fixed", I(4), 2), M("ext", I(2), 0, 1)]))
     return out
 
 
@@ -1420,7 +1424,10 @@ def concretise(case, rnd, root):
         elif fault == "union_self_arm":
             text = text.replace("</defs>", '<union name="ZU"><member name="a" type="u8" discriminatorValue="1"/><member name="z" type="ZU" discriminatorValue="2"/></union></defs>')
         elif fault == "negative_shift_constant":
-            text = text.replace("</defs>", '<constant name="ZK" value="1 &lt;&lt; -1"/><struct name="Z"><member name="a" type="u8"><dimension size="ZK"/></member></struct></defs>')
+            text = text.replace("</defs>", rnd.choice([
+                '<constant name="ZK" value="1 &lt;&lt; -1"/><struct name="Z"><member name="a" type="u8"><dimension size="ZK"/></member></struct></defs>',
+                '<constant name="ZK" value="256 &gt;&gt; -1"/></defs>',
+                '<constant name="ZS" value="2 - 3"/><constant name="ZK" value="256 &gt;&gt; ZS"/><struct name="Z"><member name="a" type="u8"><dimension size="16 &gt;&gt; ZS"/></member></struct></defs>']))
         elif fault == "huge_dimension":
             text = text.replace('size="LIMIT"', 'size="99999999999999999999"')
         elif fault == "dangling_expression":
@@ -1462,7 +1469,9 @@ def concretise(case, rnd, root):
         patch = {"one_word_line": "Picture\n", "unknown_action": "Picture explode c\n",
                  "wrong_param_count": "Picture type c\n", "member_not_found": "Picture type nosuch u8\n",
                  "non_integer_index": "Picture insert first extra u8\n", "absent_message": "NoSuchMessage type a u8\n",
-                 "empty_patch": "\n\n", "non_utf8_patch": "Picture type c u8 \udcff\n"}[pfault]
+                 "empty_patch": "\n\n", "non_utf8_patch": "Picture type c u8 \udcff\n",
+                 "bad_size_expression": rnd.choice(["Picture static pts 16>>-2\n", "Picture static pts 1/0\n",
+                                                    "Picture static pts 1<<-1\n", "Picture static pts 4+\n"])}[pfault]
         files["fix.patch"] = patch
         argv += ["--patch", os.path.join(root, "fix.patch")]
     if ofault == "no_input":
@@ -1565,7 +1574,7 @@ def c13(tier, replay):
     fz = 6 if tier == "quick" else 400
     allcases = [c for c in cases for _ in range(fz if c["fault"] == "token_fuzz" else
                                                 reps if c["fault"] in ("random_text", "illegal_char", "empty_file", "division_by_zero",
-                                                                        "size_names_type", "non_utf8", "absurd_shift",
+                                                                        "size_names_type", "non_utf8", "absurd_shift", "negative_shift_constant",
                                                                         "empty_member_name", "deep_typedef_chain") else 1)]
     jobs = _chunks(allcases, NCPU)
     with ProcessPoolExecutor(max_workers=NCPU) as ex:
